@@ -201,9 +201,155 @@ class FS:
             with open(self.path(d, name), "wb") as f:
                 f.write(bytes(blob))
 
+    def poke(self, d, name, offset, blob):
+        """overwrite bytes of an existing file at offset (state injection for harness pre-states)"""
+        if self.ctx.sym:
+            f = self.v.lookup(self.path(d, name))
+            from .shims import as_symbytes
+            f._apply(f.chunks, offset, [list(c) for c in as_symbytes(blob).chunks])
+        else:
+            with open(self.path(d, name), "r+b") as fh:
+                fh.seek(offset)
+                fh.write(bytes(blob))
+
     def cleanup(self):
         import shutil
         try:
             os.chdir(self.old)
         finally:
             shutil.rmtree(self.root, ignore_errors=True)
+
+
+# ---------------------------------------------------------------------------- effect recording for crash-point replays
+class EffectLog:
+    """Uniform view of the effects an operation had on one file, for the symbolic-crash-index harness (C11).
+
+    symbolic mode: a window of the VFS effect log.  concrete mode: the real library runs on a real file through a recording
+    mmap subclass and a recording file proxy; the snapshot for crash index c is the base content with the first c recorded
+    effects applied in order (the process-kill model the VFS states)."""
+
+    def __init__(self, fs, d, name):
+        self.fs, self.d, self.name = fs, d, name
+        self.ctx = fs.ctx
+        if self.ctx.sym:
+            self.vf = fs.v.lookup(fs.path(d, name))
+        else:
+            self.rec = fs.recorder
+
+    def mark(self):
+        """start of the operation under test: remember the content and forget earlier effects"""
+        if self.ctx.sym:
+            self.base = [list(c) for c in self.vf.chunks]
+            self.base_seq = self.fs.v.seq
+        else:
+            self.rec.sync()
+            self.base = bytearray(self.fs.read(self.d, self.name))
+            self.rec.effects.clear()
+
+    def count(self):
+        if self.ctx.sym:
+            return self.fs.v.seq - self.base_seq
+        self.rec.sync()
+        return len(self.rec.effects)
+
+    def snapshot(self, crash):
+        """file content if the process is killed after `crash` effects of the operation (0 = none, count() = all)"""
+        if self.ctx.sym:
+            return self.vf.snapshot(self.base, self.base_seq, self.base_seq + crash)
+        buf = bytearray(self.base)
+        for pos, data in self.rec.effects[: int(crash)]:
+            if pos + len(data) > len(buf):
+                buf.extend(b"\0" * (pos + len(data) - len(buf)))
+            buf[pos:pos + len(data)] = data
+        return bytes(buf)
+
+
+class Recorder:
+    """concrete mode: stands in for `mmap` and `open` inside probables.blooms.bloom and logs every store / flushed write"""
+
+    def __init__(self):
+        self.effects = []
+        self.files = []
+
+    def sync(self):
+        for f in self.files:
+            f._drain()
+
+    def mmap_cls(self):
+        import mmap as _mmap
+        rec = self
+
+        class _Meta(type):
+            def __instancecheck__(cls, x):          # the library also asks isinstance(x, mmap) for plain maps
+                return isinstance(x, _mmap.mmap)
+
+        class RecMap(_mmap.mmap, metaclass=_Meta):
+            def __setitem__(self, i, v):
+                rec.sync()
+                if isinstance(i, slice):
+                    rec.effects.append((i.start or 0, bytes(v)))
+                else:
+                    rec.effects.append((i if i >= 0 else len(self) + i, bytes([v])))
+                super().__setitem__(i, v)
+        return RecMap
+
+    def open_fn(self):
+        import builtins
+        rec = self
+
+        class RecFile:
+            def __init__(self, f):
+                self.f, self.pending = f, []
+                rec.files.append(self)
+
+            def _drain(self):
+                if self.pending:
+                    rec.effects.extend(self.pending)
+                    self.pending = []
+
+            def write(self, b):
+                self.pending.append((self.f.tell(), bytes(b)))
+                return self.f.write(b)
+
+            def seek(self, *a):
+                self._drain()
+                return self.f.seek(*a)
+
+            def flush(self):
+                self._drain()
+                return self.f.flush()
+
+            def close(self):
+                self._drain()
+                return self.f.close()
+
+            def __getattr__(self, n):
+                return getattr(self.f, n)
+
+            def __enter__(self):
+                return self
+
+            def __exit__(self, *a):
+                self.close()
+
+        def opener(path, mode="r", *a, **k):
+            f = builtins.open(path, mode, *a, **k)
+            return RecFile(f) if "+" in mode else f
+        return opener
+
+
+def record_effects(ctx, fs):
+    """concrete mode only: install the recorder into probables.blooms.bloom"""
+    if not ctx.sym:
+        fs.recorder = Recorder()
+        bm = mod("bloom")
+        ctx.patch(bm, "mmap", fs.recorder.mmap_cls())
+        ctx.patch(bm, "open", fs.recorder.open_fn())
+
+
+def u64_blob(ctx, v):
+    if ctx.sym:
+        from .shims import SymBytes
+        return SymBytes([(v, 8, False)])
+    import struct
+    return struct.pack("<Q", v)
